@@ -58,6 +58,38 @@ def cs_history(cid, rng, nadds):
     return Case(cid, L, oracle=oracle, meta={"dist": {"adds": nadds, "rows": rows}})
 
 
+def add_fails_case(cid, rng, pre, k):
+    """an addition rejected because the k-th allocation inside it fails: slice unchanged, array stays with the caller"""
+    ty = rng.choice(ALLTYPES); rows = rng.choice([0, 1, 3])
+    L = [obj_line(1, ty, rand_array(rng, ty, rows)), "va 1 -1 1", "csnew 1 1"]
+    names = [b"a", b"bb", b"IsInvalid", b"ccc", b"d"]
+    for j in range(pre + 1):
+        pty = rng.choice(ALLTYPES)
+        L += [obj_line(2 + j, pty, rand_array(rng, pty, rows)), "va %d %d %d" % (2 + j, rng.choice([-1, -2, -3]), 2 + j)]
+        if j < pre: L.append("csadd 1 %s %d" % (name_hex(names[j]), 2 + j))
+    L.append("csdump 1"); ib = len(L)
+    L.append("vadump %d" % (2 + pre)); iv = len(L)
+    L += ["allocfail %d" % k, "csadd 1 %s %d" % (name_hex(names[pre]), 2 + pre)]; ia = len(L)
+    L.append("csdump 1"); ic = len(L)
+    L.append("csget 400 1 %s" % name_hex(names[pre])); ig = len(L)
+    L.append("csrows 1"); ir = len(L)
+    L.append("vadump %d" % (2 + pre)); iv2 = len(L)
+    L += ["csadd 1 %s %d" % (name_hex(names[pre]), 2 + pre)]; ia2 = len(L)     # the caller still owns the array: adding it again works
+
+    def oracle(c):
+        st = c.val(ia)
+        if st == "0":
+            return [] if c.val(ig) == "0 same=%d" % (2 + pre) else ["accepted property is not retrievable"]
+        f = []
+        if c.val(ic) != c.val(ib): f.append("a rejected addition (status %s, allocation %d failed) changed the slice: %s -> %s" % (st, k, (c.val(ib) or "")[:50], (c.val(ic) or "")[:50]))
+        if c.val(ig) != "-15": f.append("a rejected addition left the name retrievable: %s" % c.val(ig))
+        if c.val(ir) != str(rows): f.append("row count changed by a rejected addition")
+        if c.val(iv2) != c.val(iv): f.append("the rejected array is no longer intact with the caller")
+        if c.val(ia2) != "0": f.append("adding the same array again after the rejection returned %s" % c.val(ia2))
+        return f
+    return Case(cid, L, oracle=oracle, compare=False, meta={"dist": {"kind": "add-fails", "pre": pre, "k": k}})
+
+
 def count_case(cid, rng):
     t = G.rand_table(rng, ncols=rng.choice([0, 1, 2, 3, 4]), nslices=1, maxrows=4)
     n = len(t["cols"])
@@ -71,8 +103,20 @@ def count_case(cid, rng):
         L += ["in 1 %s" % hx(mutated), "session 1 *"]
         exp.append((v, 0 if v == n else -21 if v < 0 else -19))
 
+    # the same (matching) stream read with column subsets, de-selected columns at the front / in the middle / at the end
+    subs = []
+    if n:
+        subs = sorted(set(["1" * j + "0" * (n - j) for j in range(n + 1)] + ["".join(rng.choice("01") for _ in range(n)) for _ in range(3)]))
+        for sub in subs:
+            L += ["in 1 %s" % hx(data), "session 1 %s" % sub]
+    nexp = len(exp)
+
     def oracle(c):
         f = []
+        for j, sub in enumerate(subs):
+            d = parse_session(c.val(2 * (nexp + j) + 2))
+            if d["end"] != -1000 or ("TS(own=1 cols=%d " % n) not in (d["line"] or "") + " ":
+                f.append("slice read with subset %s does not have the metadata's %d columns: %s" % (sub, n, (d["line"] or "")[:120]))
         for j, (v, e_) in enumerate(exp):
             d = parse_session(c.val(2 * j + 2))
             if e_ == 0:
@@ -91,3 +135,8 @@ def cases(rng, tier):
     for i in range({"quick": 60, "thorough": 800, "search": 30}[tier]):
         idx += 1
         yield count_case("n%d" % idx, rng)
+    for rep in range({"quick": 1, "thorough": 20, "search": 1}[tier]):
+        for pre in range(0, 5):
+            for k in range(1, 5):
+                idx += 1
+                yield add_fails_case("af%d" % idx, rng, pre, k)
